@@ -110,6 +110,16 @@ func directC19render(g *G, rep *Report) {
 			b.WriteString("tail\n{/template}\n")
 			fs = append(fs, srcFile{"dir/f" + strconv.Itoa(d) + ".soy", b.String()})
 		}
+		// every fifth bundle: all files carry ONE name (the name is a label: AddTemplateString("", …) twice is
+		// legal) — the line must still be computed in the entry template's own text
+		entryFile := "dir/f0.soy"
+		if i%5 == 4 && depth > 0 {
+			entryFile = []string{"", "same.soy"}[(i/5)%2]
+			for k := range fs {
+				fs[k].name = entryFile
+			}
+			rep.Distribution["all-files-same-name"]++
+		}
 		// file insertion order must not matter for the position
 		if r.Bool() {
 			for a, z := 0, len(fs)-1; a < z; a, z = a+1, z-1 {
@@ -130,10 +140,10 @@ func directC19render(g *G, rep *Report) {
 			return rerr
 		})
 		rep.Distribution["depth"+strconv.Itoa(depth)+":"+cls]++
-		note := "depth " + strconv.Itoa(depth) + " fail " + fail + " expected dir/f0.soy:" + strconv.Itoa(wantLine)
+		note := "depth " + strconv.Itoa(depth) + " fail " + fail + " expected " + entryFile + ":" + strconv.Itoa(wantLine)
 		viol := func(key, what, impl string) {
 			if len(rep.Violations) < 30 {
-				rep.Violations = append(rep.Violations, Viol{Key: key + ":" + fail + ":depth" + strconv.Itoa(depth), What: what, Req: req("c19render", encSources(fs)), Note: note, Impl: impl, Want: "dir/f0.soy:" + strconv.Itoa(wantLine)})
+				rep.Violations = append(rep.Violations, Viol{Key: key + ":" + fail + ":depth" + strconv.Itoa(depth), What: what, Req: req("c19render", encSources(fs)), Note: note, Impl: impl, Want: entryFile + ":" + strconv.Itoa(wantLine)})
 			}
 		}
 		if cls != "ERR" {
@@ -151,7 +161,7 @@ func directC19render(g *G, rep *Report) {
 		if depth == 0 {
 			extent = strings.Count(fail, "\n")
 		}
-		if fp.File() != "dir/f0.soy" || fp.Line() < wantLine || fp.Line() > wantLine+extent {
+		if fp.File() != entryFile || fp.Line() < wantLine || fp.Line() > wantLine+extent {
 			viol("c19r-position", "the render error points at "+got, got)
 			continue
 		}
